@@ -26,10 +26,10 @@ def obs_invariants():
 PLAN = {
     'C01': {'gated': (['basic', 'ctl', 'cancel', 'pool', 'batch', 'barrier', ('tune', 2), 'reject', 'wq'], 88, 1000), 'free': (['basic', 'ctl', 'pool'], 64, 1200), 'model': ['MC_core']},
     'C02': {'gated': (['ctl', 'pool', 'basic', 'barrier', 'bind2', 'tune', 'wq', 'cycles'], 96, 950), 'free': (['ctl', 'pool'], 64, 1200), 'model': ['MC_core']},
-    'C03': {'gated': (['basic', 'ctl', 'cancel', 'pool', 'barrier', 'batch', ('tune', 4), 'stop2', 'wq'], 96, 1100), 'free': (['basic', 'ctl', 'pool', 'cancel', 'storm'], 80, 1500), 'model': ['MC_core']},
+    'C03': {'gated': (['basic', 'ctl', 'cancel', 'pool', 'barrier', 'batch', ('tune', 4), 'stop2', 'wq'], 96, 1100), 'free': (['basic', 'ctl', 'pool', 'cancel', 'storm'], 80, 1500), 'flood': (4, 40), 'model': ['MC_core']},
     'C05': {'gated': (['handle', 'basic', 'cancel', 'batch', 'reject'], 72, 800), 'free': (['handle', 'batch'], 64, 1200), 'model': ['MC_core']},
     'C06': {'gated': (['barrier', 'ctl', 'cancel', 'stop2', 'wq'], 80, 900), 'free': (['barrier', 'ctl'], 64, 1200), 'model': ['MC_core']},
-    'C07': {'gated': (['handle', 'basic', 'batch'], 64, 750), 'free': (['handle', 'batch', 'storm'], 72, 1500), 'model': []},
+    'C07': {'gated': (['handle', 'basic', 'batch'], 64, 750), 'free': (['handle', 'batch', 'storm'], 72, 1500), 'flood': (4, 40), 'model': []},
     'C08': {'gated': ([('batch', 5), 'reject'], 168, 1600), 'free': ([('batch', 3), 'storm'], 96, 2400), 'model': []},
     'C09': {'gated': (['ctl', 'barrier', 'stop2', 'wq'], 80, 900), 'free': (['ctl'], 64, 1200), 'model': ['MC_core']},
     'C10': {'gated': (['cancel', 'batch', 'reject', 'wq'], 80, 900), 'free': (['cancel'], 64, 1200), 'model': ['MC_core']},
@@ -472,6 +472,9 @@ def check_property(pid, tier, seed):
         ffams, fq, ft = plan['free']
         nf = fq if tier == 'quick' else ft
         free = [progs.free_variant(p) for p in progs.generate(ffams, nf, rng.randrange(1 << 30), prefix=pid + 'm')]
+        if plan.get('flood'):
+            # flood episodes (thousands of failing jobs, only the quiescence line logged), from a generator of their own
+            free += progs.generate(['flood'], plan['flood'][0 if tier == 'quick' else 1], seed * 131 + 17, prefix=pid + 'fl')
         free += [p for p in corpus if p['sched']['kind'] == 'free']
         # ---- executions on the real code
         if plan.get('crash'):
